@@ -35,6 +35,45 @@ def strip_sgr(data):
     return _SGR[0].sub(b'', data) if isinstance(data, bytes) else _SGR[1].sub('', data)
 
 
+def run_chunked(args, data, chunk, env=None, timeout=60, cwd=None):
+    """runs args with `data` on a standard input that hands it over `chunk` bytes per read: a SOCK_SEQPACKET socket pair,
+    one packet per chunk (every read returns exactly one packet: short reads, deterministically), then end of input.
+    Returns (status | 'timeout', stdout, stderr)."""
+    import socket
+    import subprocess
+    import threading
+    a, b = socket.socketpair(socket.AF_UNIX, socket.SOCK_SEQPACKET)
+    try:
+        p = subprocess.Popen(args, stdin=b.fileno(), stdout=subprocess.PIPE, stderr=subprocess.PIPE, env=env, cwd=cwd,
+                             preexec_fn=child_setup)
+    finally:
+        b.close()
+
+    def feed():
+        try:
+            for i in range(0, len(data), chunk):
+                a.send(data[i:i + chunk])
+        except OSError:
+            pass
+        finally:
+            a.close()
+    t = threading.Thread(target=feed)
+    t.start()
+    try:
+        out, err = p.communicate(timeout=timeout)
+        rc = p.returncode
+    except subprocess.TimeoutExpired:
+        p.kill()
+        out, err = p.communicate()
+        rc = 'timeout'
+    try:
+        a.close()
+    except OSError:
+        pass
+    t.join()
+    return rc, out, err
+
+
 def child_setup():
     """preexec_fn for every process the checks start: die with the parent, bounded CPU time"""
     import ctypes
